@@ -1,6 +1,8 @@
 package props
 
 import (
+	"strings"
+	"sort"
 	"fmt"
 	"go/types"
 
@@ -45,6 +47,7 @@ func runC06(c *an.Ctx) {
 	if !controlGuard(c) {
 		return
 	}
+	staleReadRule(c)
 	checkWitness := mustObj(c, "smartcontract/context.ContextRef.CheckWitness")
 	reduce := mustFunc(c, ontPkg+".reduceFromBalance")
 	increase := mustFunc(c, ontPkg+".increaseToBalance")
@@ -245,4 +248,39 @@ func runC06(c *an.Ctx) {
 		}
 		c.Check(bad == "", "confine|OngBalanceHandle."+m, "the raw ONG balance handle is called only from smartcontract/storage (StateDB) or from the handle's own methods", "-", "called from "+bad)
 	}
+}
+
+// staleReadRule: read-modify-write updates of balance/allowance records in
+// the token packages are not interleaved with a write to another record of
+// the same kind (which would be lost when both keys coincide, e.g. from == to).
+func staleReadRule(c *an.Ctx) {
+	get := mustObj(c, "smartcontract/service/native/utils.GetNativeTokenBalance")
+	cget := mustObj(c, "smartcontract/storage.(*CacheDB).Get")
+	put := mustObj(c, "smartcontract/storage.(*CacheDB).Put")
+	del := mustObj(c, "smartcontract/storage.(*CacheDB).Delete")
+	if get == nil || cget == nil || put == nil || del == nil {
+		return
+	}
+	t := an.RWTables{Readers: map[*types.Func]int{get: 1, cget: 0}, Writers: map[*types.Func]int{put: 0, del: 0}}
+	if g2, ok := c.P.Obj("smartcontract/service/native/utils.GetStorageUInt64").(*types.Func); ok {
+		t.Readers[g2] = 1
+	}
+	a := an.NewStaleRead(t)
+	pairs, nfn := 0, 0
+	var issues []string
+	for _, fn := range c.P.RepoSrcFuncs(ontPkg, "smartcontract/service/native/ong") {
+		if strings.HasSuffix(c.P.Fset.Position(fn.Pos()).Filename, "_test.go") {
+			continue
+		}
+		n, is := a.StaleReads(c.P, fn)
+		if n > 0 {
+			nfn++
+		}
+		pairs += n
+		issues = append(issues, is...)
+	}
+	c.Count("read_modify_write_pairs", pairs)
+	sort.Strings(issues)
+	c.Check(len(issues) == 0 && pairs >= 2, "atomic-update|ont+ong|no-interleaved-write", "a balance or allowance record is read, modified and written back without a write to another record of the same kind in between (otherwise the update is lost when both keys name the same account, e.g. a transfer from an account to itself)",
+		"smartcontract/service/native/ont", fmt.Sprintf("%d read-modify-write pairs in %d functions; %s", pairs, nfn, strings.Join(issues, " | ")))
 }
